@@ -159,6 +159,11 @@ M("C19", "lm: r is the smaller", LM, """        d = (logb_y - logb_x);
 M("C19", "lm: zero test asymmetric", LM, """    if (logb_y <= lmath->zero)
         return logb_x;""", """    if (logb_y < lmath->zero)
         return logb_x;""", "TWIN.symmetry")
+M("C19", "lm: exact fallback before the zero tests", LM, """    /* handle 0 + x = x case. */
+    if (logb_x <= lmath->zero)""", """    if (t->table == NULL)
+        return logmath_add_exact(lmath, logb_x, logb_y);
+    /* handle 0 + x = x case. */
+    if (logb_x <= lmath->zero)""", "TWIN.symmetry")
 M("C19", "lm: case 2 read as uint8", LM, "        return r + (((uint16 *)t->table)[d]);", "        return r + (((uint8 *)t->table)[d]);", "TABLE.width")
 M("C19", "lm: subtract entry", LM, "        return r + (((uint32 *)t->table)[d]);", "        return r - (((uint32 *)t->table)[d]);", "ORDER.monotone")
 M("C19", "lm: log no guard", LM, """    if (p <= 0) {
